@@ -41,7 +41,7 @@ CHECKS = {
     "C06": {
         "batches": [
             {"engine": "thrnet", "mode": "", "runs": {"quick": 40000, "thorough": 700000}, "budget": {"quick": 75, "thorough": 1500}},
-            {"engine": "thrnet", "mode": "big", "runs": {"quick": 32, "thorough": 1600}, "budget": {"quick": 60, "thorough": 1500}},
+            {"engine": "thrnet", "mode": "big", "runs": {"quick": 64, "thorough": 1600}, "budget": {"quick": 60, "thorough": 1500}},
         ],
         "rule": THR_RULE + "; mode big = only the large group sizes (signer sets crossing the 8-indices-per-limb batching of the Lagrange code)",
         "time_unit": "share deliveries to collectors",
@@ -56,10 +56,11 @@ CHECKS = {
             {"engine": "dkgsim", "mode": "", "runs": {"quick": 32000, "thorough": 700000}, "budget": {"quick": 75, "thorough": 1500}},
             {"engine": "dkgsim", "mode": "adv", "runs": {"quick": 12000, "thorough": 300000}, "budget": {"quick": 45, "thorough": 1200}},
             {"engine": "dkgsim", "mode": "wide", "runs": {"quick": 32, "thorough": 3200}, "budget": {"quick": 60, "thorough": 1500}, "det": False},
-            {"engine": "dkgsim", "mode": "big", "runs": {"quick": 0, "thorough": 160}, "budget": {"quick": 0, "thorough": 1500}, "det": False},
+            {"engine": "dkgsim", "mode": "big", "runs": {"quick": 16, "thorough": 160}, "budget": {"quick": 40, "thorough": 1500}, "det": False},
+            {"engine": "dkgsim", "mode": "mid", "runs": {"quick": 160, "thorough": 8000}, "budget": {"quick": 40, "thorough": 1200}, "det": False},
             {"engine": "dkgsim", "mode": "craft", "runs": {"quick": 6000, "thorough": 150000}, "budget": {"quick": 45, "thorough": 1200}},
         ],
-        "rule": PROTO_RULE + "; mode adv = adversarial templates (the single dealer is Byzantine, every Byzantine participant misbehaves systematically per message kind, its vector is mostly held back and sent last in the round); mode wide = single-dealer protocols with n in {128..131,160,200,253,254} and t <= 3 (participant indices beyond 127); mode big = Joint-Feldman with n in 16..32" + CRAFT_RULE,
+        "rule": PROTO_RULE + "; mode adv = adversarial templates (the single dealer is Byzantine, every Byzantine participant misbehaves systematically per message kind, its vector is mostly held back and sent last in the round); mode wide = single-dealer protocols with n in {128..131,160,200,253,254} and t <= 3 (participant indices beyond 127); mode big = Joint-Feldman with n in 16..32; mode mid = all three protocols with n in 13..24 and any threshold" + CRAFT_RULE,
         "time_unit": "protocol rounds (3 per run), timer events and message deliveries",
         "real": DKG_REAL, "stub": DKG_STUB, "assumptions": DKG_ASSUME,
         "expected_probes": ["dkg_succeeded", "dkg_failed", "jf_failed", "honest_complaint", "threshold_signature_checked", "groupkey_recomputed_from_vectors", "exactly_t_complaints", "t_plus_1_complaints", "vector_late", "vector_malformed_first", "crafted_dealing_accepted"],
@@ -69,10 +70,11 @@ CHECKS = {
             {"engine": "dkgsim", "mode": "", "runs": {"quick": 32000, "thorough": 700000}, "budget": {"quick": 60, "thorough": 1500}},
             {"engine": "dkgsim", "mode": "adv", "runs": {"quick": 12000, "thorough": 300000}, "budget": {"quick": 45, "thorough": 1200}},
             {"engine": "dkgsim", "mode": "fvss", "runs": {"quick": 20000, "thorough": 300000}, "budget": {"quick": 30, "thorough": 900}},
+            {"engine": "dkgsim", "mode": "mid", "runs": {"quick": 160, "thorough": 8000}, "budget": {"quick": 40, "thorough": 1200}, "det": False},
             {"engine": "dkgsim", "mode": "wide", "runs": {"quick": 32, "thorough": 3200}, "budget": {"quick": 60, "thorough": 1500}, "det": False},
             {"engine": "dkgsim", "mode": "craft", "runs": {"quick": 6000, "thorough": 150000}, "budget": {"quick": 45, "thorough": 1200}},
         ],
-        "rule": PROTO_RULE + "; mode adv = adversarial templates (the single dealer is Byzantine, every Byzantine participant misbehaves systematically per message kind, its vector is mostly held back and sent last in the round); mode wide = single-dealer protocols with n in {128..131,160,200,253,254} and t <= 3; mode fvss = plain Feldman VSS worlds only (every order of vector and share deliveries, every malformation kind)" + CRAFT_RULE,
+        "rule": PROTO_RULE + "; mode adv = adversarial templates (the single dealer is Byzantine, every Byzantine participant misbehaves systematically per message kind, its vector is mostly held back and sent last in the round); mode wide = single-dealer protocols with n in {128..131,160,200,253,254} and t <= 3; mode fvss = plain Feldman VSS worlds only (every order of vector and share deliveries, every malformation kind); mode mid = all three protocols with n in 13..24 and any threshold" + CRAFT_RULE,
         "time_unit": "protocol rounds (3 per run), timer events and message deliveries",
         "real": DKG_REAL, "stub": DKG_STUB,
         "assumptions": DKG_ASSUME + ["must-disqualify expectations are derived from the mutator's labels (which polynomial a vector/share/answer belongs to), never by recomputing curve points"],
